@@ -305,6 +305,76 @@ fn exec_reads(sc: &Scenario) -> Outcome {
     Outcome::of(&d, stats, vs)
 }
 
+/// Every scalar and composite value that occurs in the scenario's documents (rendered as YAML).
+fn value_pool(docs: &[MVal]) -> Vec<serde_yaml::Value> {
+    fn walk(v: &serde_yaml::Value, out: &mut Vec<serde_yaml::Value>) {
+        if out.len() >= 24 {
+            return;
+        }
+        match v {
+            serde_yaml::Value::Mapping(m) => {
+                for (_, x) in m {
+                    walk(x, out);
+                }
+            }
+            serde_yaml::Value::Sequence(s) => {
+                out.push(v.clone());
+                for x in s {
+                    walk(x, out);
+                }
+            }
+            other => {
+                if !out.contains(other) {
+                    out.push(other.clone())
+                }
+            }
+        }
+    }
+    let mut out = vec![];
+    for d in docs {
+        walk(&d.to_yaml(), &mut out);
+    }
+    if out.is_empty() {
+        out.push(serde_yaml::Value::String("added".into()));
+    }
+    out
+}
+
+/// The YAML document with members under NON-STRING keys (null, booleans, numbers) added to every
+/// mapping. A rule writes field names as strings and `Object::get` takes a `&str`, so no predicate
+/// can address such a member: they are unaddressed fields by construction.
+fn with_nonstring_members(v: &serde_yaml::Value, pool: &[serde_yaml::Value], next: &mut usize) -> serde_yaml::Value {
+    use serde_yaml::Value as Y;
+    match v {
+        Y::Mapping(m) => {
+            let mut out = serde_yaml::Mapping::new();
+            for (k, x) in m {
+                out.insert(k.clone(), with_nonstring_members(x, pool, next));
+            }
+            let keys = [
+                Y::Null,
+                Y::Bool(true),
+                Y::Bool(false),
+                Y::Number(0.into()),
+                Y::Number(1.into()),
+                Y::Number(15.into()),
+                Y::Number(16.into()),
+                Y::Number(1000.0.into()),
+                Y::Number(1000.into()),
+            ];
+            for k in keys {
+                if !out.contains_key(&k) {
+                    out.insert(k, pool[*next % pool.len()].clone());
+                    *next += 1;
+                }
+            }
+            Y::Mapping(out)
+        }
+        Y::Sequence(s) => Y::Sequence(s.iter().map(|x| with_nonstring_members(x, pool, next)).collect()),
+        other => other.clone(),
+    }
+}
+
 fn exec_meta(sc: &Scenario) -> Outcome {
     let mut stats = Stats::default();
     let mut d = Digest::new();
@@ -322,6 +392,7 @@ fn exec_meta(sc: &Scenario) -> Outcome {
     let yaml: serde_yaml::Value = serde_yaml::from_str(&sc.rule_text).unwrap_or(serde_yaml::Value::Null);
     let shape = gen::rule_shape(&yaml);
     let ks = gen::key_set(&yaml);
+    let pool = value_pool(&sc.docs);
     for sw in &sc.switch_sets {
         let h = sc.hash_seeds.first().copied().unwrap_or(0);
         let r = if *sw == 0 {
@@ -332,6 +403,42 @@ fn exec_meta(sc: &Scenario) -> Outcome {
                 Err(_) => continue,
             }
         };
+        // YAML mappings can have members under keys that are not strings: adding them (holding
+        // values taken from the scenario's documents, offset varied) must not change a verdict
+        for (i, doc) in sc.docs.iter().enumerate() {
+            let y = doc.to_yaml();
+            let m0 = match y.as_mapping() {
+                Some(m) => m.clone(),
+                None => continue,
+            };
+            for offset in [0usize, 1, 2] {
+                let mut next = i + offset * 7;
+                let y1 = with_nonstring_members(&y, &pool, &mut next);
+                let m1 = y1.as_mapping().cloned().unwrap_or_default();
+                if let (Ok(a), Ok(b)) = (matches_doc(&r, &m0), matches_doc(&r, &m1)) {
+                    stats.inc("yaml_nonstring_key_variants_compared");
+                    d.u64(a as u64).u64(b as u64);
+                    if a != b {
+                        push_violation(
+                            &mut vs,
+                            Violation::new(
+                                "verdict_changed_by_unaddressed_field",
+                                format!("yaml_nonstring_key:{}", if *sw == 0 { "unoptimised" } else { "optimised" }),
+                                format!(
+                                    "yaml back-end, {} rule: {} -> {} but with members under non-string keys added to every mapping -> {}\n  variant: {}\n  tree: {}",
+                                    if *sw == 0 { "unoptimised".to_owned() } else { sw_name(*sw) },
+                                    doc.show(),
+                                    a,
+                                    b,
+                                    serde_yaml::to_string(&y1).unwrap_or_default().replace('\n', " | "),
+                                    show(&r).replace('\n', " ")
+                                ),
+                            ),
+                        );
+                    }
+                }
+            }
+        }
         for pair in sc.docs.chunks(2) {
             if pair.len() < 2 {
                 continue;
